@@ -1814,3 +1814,211 @@ Proof.
   split; [exists (snd h); split; [reflexivity|exact M]|].
   destruct (bx_reverted_at r); [destruct R8 as [R8 _]; congruence|congruence].
 Qed.
+
+(* ---- Part H: GetAggregatedBalances ---------------------------------------------------------------------------------------------- *)
+Definition lt2 (x y : N * N) : Prop := (fst x < fst y)%N \/ (fst x = fst y /\ (snd x < snd y)%N).
+
+Lemma ins_pair_in : forall x y l, In y (ins_pair x l) <-> y = x \/ In y l.
+Proof.
+  induction l as [|z r IH]; cbn; [intuition|].
+  destruct (N.ltb (fst x) (fst z) || N.eqb (fst x) (fst z) && N.ltb (snd x) (snd z)); cbn; [intuition|].
+  destruct (N.eqb_spec (fst x) (fst z)) as [E1|E1]; cbn [andb].
+  - destruct (N.eqb_spec (snd x) (snd z)) as [E2|E2]; cbn.
+    + assert (x = z) as -> by (destruct x, z; cbn in *; congruence). intuition.
+    + rewrite IH. intuition.
+  - cbn. rewrite IH. intuition.
+Qed.
+
+Lemma sort_dedup_pairs_in : forall y l, In y (sort_dedup_pairs l) <-> In y l.
+Proof. induction l as [|x r IH]; cbn; [tauto|]. rewrite ins_pair_in, IH. intuition. Qed.
+
+Lemma ins_pair_sorted : forall x l, StronglySorted lt2 l -> StronglySorted lt2 (ins_pair x l).
+Proof.
+  induction l as [|z r IH]; intros H; cbn; [constructor; constructor|].
+  apply StronglySorted_inv in H. destruct H as [Hr Hz]. rewrite Forall_forall in Hz.
+  destruct (N.ltb_spec (fst x) (fst z)) as [L1|L1]; cbn [orb].
+  - constructor; [constructor; [assumption|apply Forall_forall; assumption]|].
+    apply Forall_forall. intros y [<-|Hy]; [left; assumption|]. specialize (Hz y Hy). unfold lt2 in *. lia.
+  - destruct (N.eqb_spec (fst x) (fst z)) as [E1|E1]; cbn [andb].
+    + destruct (N.ltb_spec (snd x) (snd z)) as [L2|L2].
+      * constructor; [constructor; [assumption|apply Forall_forall; assumption]|].
+        apply Forall_forall. intros y [<-|Hy]; [right; auto|]. specialize (Hz y Hy). unfold lt2 in *. lia.
+      * destruct (N.eqb_spec (snd x) (snd z)) as [E2|E2]; [constructor; [assumption|apply Forall_forall; assumption]|].
+        constructor; [apply IH; assumption|]. apply Forall_forall. intros y Hy. apply ins_pair_in in Hy.
+        destruct Hy as [->|Hy]; [unfold lt2; lia|apply Hz; assumption].
+    + constructor; [apply IH; assumption|]. apply Forall_forall. intros y Hy. apply ins_pair_in in Hy.
+      destruct Hy as [->|Hy]; [unfold lt2; lia|apply Hz; assumption].
+Qed.
+
+Lemma sort_dedup_pairs_NoDup : forall l, NoDup (sort_dedup_pairs l).
+Proof.
+  intros l. assert (S : StronglySorted lt2 (sort_dedup_pairs l)).
+  { induction l; cbn; [constructor|apply ins_pair_sorted; assumption]. }
+  induction S as [|x r S IH F]; constructor; auto. intros C. rewrite Forall_forall in F. specialize (F x C). unfold lt2 in F. lia.
+Qed.
+
+Definition bk (m : bmove) : N * N := (b_addr m, b_asset m).
+
+Lemma bkey_bk : forall m m', bkey (fst (bk m)) (snd (bk m)) m' = true <-> bk m' = bk m.
+Proof.
+  intros m m'. unfold bkey, bk. cbn. rewrite andb_true_iff, !N.eqb_eq. split; [intros [-> ->]; reflexivity|intros E; inversion E; auto].
+Qed.
+
+(* the latest move of every (account, asset) *)
+Lemma latest_spec : forall F,
+  (forall m, In m (A_latest_per_key F) -> exists rest, filter (bkey (b_addr m) (b_asset m)) F = m :: rest) /\
+  NoDup (map bk (A_latest_per_key F)) /\
+  (forall x, In x F -> exists m, In m (A_latest_per_key F) /\ bk m = bk x).
+Proof.
+  intros F. unfold A_latest_per_key. fold bk.
+  set (K := sort_dedup_pairs (map bk F)).
+  assert (Hk : forall k m rest, filter (bkey (fst k) (snd k)) F = m :: rest -> bk m = k /\ In m F).
+  { intros k m rest E. assert (In m (filter (bkey (fst k) (snd k)) F)) as X by (rewrite E; left; reflexivity).
+    apply filter_In in X. destruct X as [Hin Hb]. unfold bkey in Hb. apply andb_prop in Hb. destruct Hb as [A B].
+    apply N.eqb_eq in A, B. split; [unfold bk; destruct k; cbn in *; congruence|exact Hin]. }
+  split; [|split].
+  - intros m Hm. apply in_flat_map in Hm. destruct Hm as [k [_ Hm]].
+    destruct (filter (bkey (fst k) (snd k)) F) as [|m0 rest] eqn:E; [contradiction|]. destruct Hm as [<-|[]].
+    destruct (Hk k m0 rest E) as [Ek _]. exists rest. rewrite <- E. f_equal. unfold bk in Ek. rewrite <- Ek. reflexivity.
+  - assert (G : forall Ks, NoDup Ks ->
+              NoDup (map bk (flat_map (fun k => match filter (bkey (fst k) (snd k)) F with m :: _ => [m] | [] => [] end) Ks)) /\
+              forall m, In m (flat_map (fun k => match filter (bkey (fst k) (snd k)) F with m :: _ => [m] | [] => [] end) Ks) -> In (bk m) Ks).
+    { induction Ks as [|k Ks IH]; intros N; cbn [flat_map map]; [split; [constructor|intros m []]|].
+      inversion N as [|? ? Hn Hr]; subst. destruct (IH Hr) as [I1 I2].
+      destruct (filter (bkey (fst k) (snd k)) F) as [|m0 rest] eqn:E; cbn [app map].
+      - split; [exact I1|]. intros m Hm. right. apply I2. exact Hm.
+      - destruct (Hk k m0 rest E) as [Ek _]. split.
+        + constructor; [|exact I1]. intros C. apply in_map_iff in C. destruct C as [m' [E' Hm']]. apply Hn. rewrite <- Ek, <- E'. apply I2. exact Hm'.
+        + intros m [<-|Hm]; [left; symmetry; exact Ek|right; apply I2; exact Hm]. }
+    apply (G K). apply sort_dedup_pairs_NoDup.
+  - intros x Hx. assert (In (bk x) K) as HK by (apply sort_dedup_pairs_in; apply in_map; assumption).
+    destruct (filter (bkey (fst (bk x)) (snd (bk x))) F) as [|m0 rest] eqn:E.
+    + exfalso. assert (In x (filter (bkey (fst (bk x)) (snd (bk x))) F)) as C by (apply filter_In; split; [assumption|apply bkey_bk; reflexivity]).
+      rewrite E in C. contradiction.
+    + destruct (Hk (bk x) m0 rest E) as [Ek _]. exists m0. split; [|exact Ek].
+      apply in_flat_map. exists (bk x). split; [exact HK|]. rewrite E. left. reflexivity.
+Qed.
+
+Lemma osum_somes : forall l, l <> [] -> osum (map Some l) = Some (zsum l).
+Proof.
+  intros l Hne. unfold osum.
+  assert (G : forall l acc, fold_left (fun acc x => match x with None => acc | Some v => Some (match acc with Some a => a + v | None => v end) end)
+                              (map Some l) (Some acc) = Some (acc + zsum l)).
+  { induction l0 as [|x l0 IH]; intros acc; cbn [map fold_left]; [unfold zsum; cbn; f_equal; lia|].
+    rewrite IH. unfold zsum. cbn [fold_right]. f_equal. lia. }
+  destruct l as [|x l]; [congruence|]. cbn [map fold_left]. rewrite G. unfold zsum. cbn [fold_right]. reflexivity.
+Qed.
+
+Definition agg_lookup (l : list (N * vol)) (s : N) : option vol := option_map snd (find (fun kv => N.eqb (fst kv) s) l).
+
+Lemma find_map_self : forall (F : N -> vol) SL s,
+  find (fun kv => N.eqb (fst kv) s) (map (fun s' => (s', F s')) SL) = if existsb (N.eqb s) SL then Some (s, F s) else None.
+Proof.
+  induction SL as [|x SL IH]; intros s; cbn [map find existsb fst]; [reflexivity|].
+  rewrite (N.eqb_sym s x). destruct (N.eqb_spec x s) as [->|]; [reflexivity|]. cbn [orb]. apply IH.
+Qed.
+
+(* the moves dated up to pit, newest first *)
+Definition upto (pit : option Z) (ms : list bmove) : list bmove := filter (fun m => before_ok pit (b_ins m)) ms.
+
+Lemma latest_pcv : forall ms pit m rest,
+  pcv_ok ms -> (pit <> None -> StronglySorted (fun x y => b_ins y <= b_ins x) ms) ->
+  filter (bkey (b_addr m) (b_asset m)) (upto pit ms) = m :: rest ->
+  b_pcv m = vol_of (rvol (filter (rkey (b_addr m) (b_asset m)) (map core (upto pit ms)))).
+Proof.
+  intros ms pit m rest P S E. unfold upto in *. rewrite filter_filter in E.
+  destruct pit as [t|].
+  - rewrite (pcv_ok_head_pit (b_addr m) (b_asset m) t ms m rest P (S ltac:(discriminate)) E).
+    f_equal. f_equal.
+    rewrite (filter_map_comm core (rkey (b_addr m) (b_asset m))), filter_filter, (filter_map_comm core). reflexivity.
+  - rewrite (pcv_ok_head (b_addr m) (b_asset m) ms m rest P).
+    + rewrite (filter_ext (fun m0 => before_ok None (b_ins m0)) (fun _ => true)) by reflexivity.
+      assert (forall l : list bmove, filter (fun _ => true) l = l) as Hid by (induction l; cbn; congruence). rewrite Hid. reflexivity.
+    + rewrite <- E. apply filter_ext. intros x. reflexivity.
+Qed.
+
+Lemma NoDup_map_filter : forall {A B} (f : A -> B) (p : A -> bool) l, NoDup (map f l) -> NoDup (map f (filter p l)).
+Proof.
+  induction l as [|x l IH]; cbn; intros H; [constructor|]. inversion H as [|? ? Hn Hr]; subst.
+  destruct (p x); [|apply IH; assumption]. cbn. constructor; [|apply IH; assumption].
+  intros C. apply Hn. apply in_map_iff in C. destruct C as [y [E Hy]]. apply filter_In in Hy. rewrite <- E. apply in_map. tauto.
+Qed.
+
+Lemma nodup_addr_same_asset : forall (G : list bmove) s,
+  NoDup (map bk G) -> (forall g, In g G -> b_asset g = s) -> NoDup (map b_addr G).
+Proof.
+  induction G as [|g t IH]; cbn; intros s N1 H; [constructor|]. inversion N1 as [|? ? Hn Hr]; subst.
+  constructor; [|apply (IH s); [assumption|intros; apply H; right; assumption]].
+  intros C. apply Hn. apply in_map_iff in C. destruct C as [g' [E Hg']]. apply in_map_iff. exists g'. split; [|assumption].
+  unfold bk. rewrite E, (H g (or_introl eq_refl)), (H g' (or_intror Hg')). reflexivity.
+Qed.
+
+Lemma some_vol_rev : forall X, some_vol (rev X) = match X with [] => None | _ => Some (rvol X) end.
+Proof.
+  intros [|x t]; [reflexivity|]. unfold some_vol. destruct (rev (x :: t)) as [|y l] eqn:R.
+  - apply (f_equal (@length _)) in R. rewrite rev_length in R. discriminate.
+  - rewrite <- R, rvol_rev. reflexivity.
+Qed.
+
+Theorem A_aggregated_lookup : forall Ls pit s,
+  no_self_transfer_on_new_account Ls = true -> (pit <> None -> dates_monotone Ls = true) ->
+  agg_lookup (A_aggregated_volumes (snd (A_run Ls)) pit) s =
+  option_map vol_of (some_vol (filter (fun m => before_ok pit (r_ins m) && N.eqb (r_asset m) s) (replay_moves Ls))).
+Proof.
+  intros Ls pit s Hn Hd. pose proof (run_pcv_ok Ls Hn) as P.
+  assert (S : pit <> None -> StronglySorted (fun x y => b_ins y <= b_ins x) (snd (A_run Ls))) by (intros C; apply ins_sorted_run; auto).
+  set (ms := snd (A_run Ls)) in *. unfold A_aggregated_volumes. fold (upto pit ms). set (F := upto pit ms).
+  destruct (latest_spec F) as [L1 [L2 L3]]. set (LL := A_latest_per_key F) in *.
+  (* the oracle's side, on the machine's own list *)
+  rewrite <- (some_vol_noeff (fun m => before_ok pit (r_ins m) && N.eqb (r_asset m) s) (replay_moves_sql Ls) (replay_moves Ls))
+    by (try (intros m; reflexivity); apply noeff_moves).
+  set (X := filter (fun r => N.eqb (r_asset r) s) (map core F)).
+  assert (EX : rev X = filter (fun m => before_ok pit (r_ins m) && N.eqb (r_asset m) s) (replay_moves_sql Ls)).
+  { rewrite <- (rev_involutive (replay_moves_sql Ls)), <- core_run, filter_rev'. f_equal. fold ms.
+    unfold X, F, upto. rewrite !(filter_map_comm core), filter_filter. reflexivity. }
+  rewrite <- EX.
+  rewrite some_vol_rev. clear EX.
+  (* the store's side *)
+  unfold agg_lookup, A_sum_by_asset. rewrite find_map_self.
+  set (G := filter (fun m => N.eqb (b_asset m) s) LL).
+  assert (HG : existsb (N.eqb s) (sort_dedup (map b_asset LL)) = match G with [] => false | _ => true end).
+  { destruct G as [|g t] eqn:EG.
+    - destruct (existsb _ _) eqn:EX; [|reflexivity]. apply existsb_exists in EX. destruct EX as [x [Hx Ex]]. apply N.eqb_eq in Ex. subst x.
+      apply (proj1 (sort_dedup_in _ _)) in Hx. apply in_map_iff in Hx. destruct Hx as [m [Em Hm]].
+      assert (In m G) as C by (apply filter_In; split; [assumption|apply N.eqb_eq; assumption]). rewrite EG in C. contradiction.
+    - apply existsb_exists. exists s. split; [|apply N.eqb_refl]. apply (proj2 (sort_dedup_in _ _)).
+      assert (In g G) as C by (rewrite EG; left; reflexivity). apply filter_In in C. destruct C as [C1 C2]. apply N.eqb_eq in C2.
+      rewrite <- C2. apply in_map. assumption. }
+  rewrite HG.
+  (* accounts of the asset *)
+  assert (HGin : forall g, In g G -> In g LL /\ b_asset g = s).
+  { intros g Hg. apply filter_In in Hg. destruct Hg as [A B]. apply N.eqb_eq in B. auto. }
+  assert (Hpcv : forall g, In g G -> b_pcv g = vol_of (rvol (filter (fun r => N.eqb (r_addr r) (b_addr g)) X))).
+  { intros g Hg. destruct (HGin g Hg) as [Hl Ha]. destruct (L1 g Hl) as [rest E].
+    rewrite (latest_pcv ms pit g rest P S E). fold F. unfold X. rewrite filter_filter. f_equal. f_equal.
+    apply filter_ext. intros r. unfold rkey. rewrite Ha. apply andb_comm. }
+  assert (Hnd : NoDup (map b_addr G)).
+  { apply (nodup_addr_same_asset G s); [apply NoDup_map_filter; exact L2|]. intros g Hg. apply HGin. exact Hg. }
+  assert (Hcov : forall r, In r X -> In (r_addr r) (map b_addr G)).
+  { intros r Hr. unfold X in Hr. apply filter_In in Hr. destruct Hr as [Hr Ha]. apply N.eqb_eq in Ha.
+    apply in_map_iff in Hr. destruct Hr as [x [Ex Hx]]. destruct (L3 x Hx) as [m [Hm Em]].
+    apply in_map_iff. exists m. unfold bk in Em. inversion Em as [[E1 E2]]. split; [rewrite E1, <- Ex; reflexivity|].
+    apply filter_In. split; [exact Hm|]. apply N.eqb_eq. rewrite E2, <- Ha, <- Ex. reflexivity. }
+  destruct G as [|g0 t0] eqn:EG.
+  - (* no account holds the asset up to pit *)
+    destruct X as [|x tx] eqn:EX; [reflexivity|]. exfalso. apply (Hcov x). left. reflexivity.
+  - assert (Xne : X <> []).
+    { destruct (HGin g0 (or_introl eq_refl)) as [Hl Ha]. destruct (L1 g0 Hl) as [rest E].
+      assert (In g0 F) as Hf. { assert (In g0 (filter (bkey (b_addr g0) (b_asset g0)) F)) as Y by (rewrite E; left; reflexivity). apply filter_In in Y. tauto. }
+      intros C. assert (In (core g0) X) as Y; [|rewrite C in Y; contradiction].
+      unfold X. apply filter_In. split; [apply in_map; assumption|]. apply N.eqb_eq. exact Ha. }
+    destruct X as [|x tx] eqn:EX; [congruence|]. rewrite <- EX in *. rewrite <- EG in *. cbn [option_map snd]. f_equal.
+    assert (Hin : map (fun m => fst (b_pcv m)) G = map Some (map (fun a => zsum (map r_in (filter (fun r => N.eqb (r_addr r) a) X))) (map b_addr G))).
+    { rewrite !map_map. apply map_ext_in'. intros g Hg. rewrite (Hpcv g Hg). reflexivity. }
+    assert (Hout : map (fun m => snd (b_pcv m)) G = map Some (map (fun a => zsum (map r_out (filter (fun r => N.eqb (r_addr r) a) X))) (map b_addr G))).
+    { rewrite !map_map. apply map_ext_in'. intros g Hg. rewrite (Hpcv g Hg). reflexivity. }
+    rewrite Hin, Hout.
+    assert (Gne : map b_addr G <> []) by (rewrite EG; discriminate).
+    rewrite !osum_somes by (intros C; apply Gne; destruct (map b_addr G); [reflexivity|discriminate]).
+    rewrite (partition_accounts r_in _ X Hnd Hcov), (partition_accounts r_out _ X Hnd Hcov). reflexivity.
+Qed.
